@@ -88,3 +88,156 @@ pub fn program(rng: &mut Rng) -> String {
     }
     out
 }
+
+// ------------------------------------------------------------------------------------------------ other forms
+const KINDS: [&str; 3] = ["int", "uint", "float"];
+const COMP: [&str; 4] = ["x", "y", "z", "w"];
+
+fn klit(rng: &mut Rng, k: &str) -> String {
+    match k {
+        "int" => rng.pick(&["0", "1", "2", "7", "-3", "100", "2147483647"]).to_string(),
+        "uint" => rng.pick(&["0u", "1u", "2u", "7u", "33u", "4294967295u"]).to_string(),
+        "bool" => rng.pick(&["true", "false"]).to_string(),
+        _ => lit(rng),
+    }
+}
+
+fn vt(k: &str, n: usize) -> String {
+    if n == 1 { k.to_string() } else { format!("{}{}", k, n) }
+}
+
+fn swz(rng: &mut Rng, from: usize, n: usize) -> String {
+    (0..n).map(|_| COMP[rng.below(from as u64) as usize]).collect()
+}
+
+/// programs around the forms `c01/vgen.rs` does not produce: swizzles of scalars, arithmetic on enumerations and
+/// enumeration constants without an enumerator, prototypes of functions with out parameters, value template parameters,
+/// nested structs / arrays of structs, struct out parameters, methods with out parameters
+pub fn extra_program(rng: &mut Rng) -> String {
+    match rng.below(5) {
+        0 => scalar_swizzles(rng),
+        1 => enums(rng),
+        2 => prototypes(rng),
+        3 => value_templates(rng),
+        _ => nested_structs(rng),
+    }
+}
+
+fn scalar_swizzles(rng: &mut Rng) -> String {
+    let k = *rng.pick(&KINDS);
+    let n = 2 + rng.below(3) as usize;
+    let m = 2 + rng.below(3) as usize;
+    let mut out = format!("{} fx({} s, {} v, bool b)\n{{\n", vt(k, n), k, vt(k, m));
+    out.push_str(&format!("    {} a = s.{};\n", vt(k, n), "x".repeat(n)));
+    out.push_str(&format!("    {} c = v.{};\n", k, swz(rng, m, 1)));
+    let op = *rng.pick(&["+", "-", "*"]);
+    match rng.below(4) {
+        0 => out.push_str(&format!("    a = a {} c.{}.{};\n", op, "x".repeat(4), swz(rng, 4, n))),
+        1 => out.push_str(&format!("    a.{} = s.x;\n", COMP[rng.below(n as u64) as usize])),
+        2 => out.push_str(&format!("    a {}= (b ? s : c).{};\n", op, "x".repeat(n))),
+        _ => out.push_str(&format!("    c = (s {} c).x;\n    a = c.{};\n", op, "x".repeat(n))),
+    }
+    if rng.chance(1, 2) {
+        out.push_str(&format!("    s.x = {};\n    a = a {} s.{};\n", klit(rng, k), op, "x".repeat(n)));
+    }
+    out.push_str(&format!("    return a {} ({})c;\n}}\n", op, vt(k, n)));
+    out
+}
+
+fn enums(rng: &mut Rng) -> String {
+    let mut out = String::from("enum E1 { P0, P1 = 3, P2, P3 = 16 };\n");
+    let in_struct = rng.chance(1, 2);
+    if in_struct {
+        out.push_str("struct SE\n{\n    E1 e;\n    int2 w;\n};\n");
+    }
+    out.push_str("void he(inout E1 a, out E1 b, int k)\n{\n    b = a;\n");
+    out.push_str(&format!("    a = (E1)(a {} k);\n}}\n\n", rng.pick(&["+", "|", "^", "&", "*"])));
+    out.push_str(&format!("int fe(E1 p, E1 q, int i{})\n{{\n", if in_struct { ", SE t" } else { "" }));
+    out.push_str(&format!("    E1 c = p {} q;\n", rng.pick(&["|", "&", "^"])));
+    out.push_str(&format!("    E1 d = (E1){};\n", rng.pick(&["7", "1", "16", "100", "-1"])));
+    out.push_str("    E1 o;\n    he(c, o, i);\n");
+    if in_struct {
+        out.push_str("    t.e = o;\n    o = t.e;\n    t.w.x += (int)t.e;\n");
+    }
+    match rng.below(3) {
+        0 => out.push_str("    if (c == P1 || d > q)\n    {\n        c = E1::P2;\n    }\n"),
+        1 => out.push_str("    switch (c)\n    {\n        case P0:\n        {\n            i = 1;\n            break;\n        }\n        case E1::P3:\n        {\n            i += 2;\n        }\n        default:\n        {\n            i = i * 3;\n        }\n    }\n"),
+        _ => out.push_str("    c = i > 2 ? p : d;\n"),
+    }
+    out.push_str(&format!("    return (int)c + (int)o * 7 + (int)d * 31 + i{};\n}}\n", if in_struct { " + t.w.x" } else { "" }));
+    out
+}
+
+fn prototypes(rng: &mut Rng) -> String {
+    let k = *rng.pick(&KINDS);
+    let n = 2 + rng.below(3) as usize;
+    let t = vt(k, n);
+    let ns = rng.chance(1, 2);
+    let void_ret = rng.chance(1, 2);
+    let ret = if void_ret { "void".to_string() } else { t.clone() };
+    let mut out = String::new();
+    if ns {
+        out.push_str("namespace NP\n{\n");
+    }
+    out.push_str(&format!("static {} gp = {};\n", t, klit(rng, k)));
+    out.push_str(&format!("{} hp(out {} o, inout {} q, {} d = {});\n", ret, t, t, k, klit(rng, k)));
+    out.push_str(&format!("{} up({} v)\n{{\n    {} o;\n    {} q = v;\n", t, t, t, t));
+    if void_ret {
+        out.push_str(&format!("    hp(o, q{});\n", if rng.chance(1, 2) { String::new() } else { format!(", {}", klit(rng, k)) }));
+    } else {
+        out.push_str("    o = hp(o, q) + o;\n");
+    }
+    out.push_str("    return o - q + gp;\n}\n");
+    out.push_str(&format!("{} hp(out {} o, inout {} q, {} d)\n{{\n    o = q + d;\n    q.{} = d;\n    gp = gp + o;\n", ret, t, t, k, COMP[rng.below(n as u64) as usize]));
+    if !void_ret {
+        out.push_str("    return q;\n");
+    }
+    out.push_str("}\n");
+    if ns {
+        out.push_str("}\n");
+    }
+    let q = if ns { "NP::" } else { "" };
+    out.push_str(&format!("\n{} fp({} v)\n{{\n    {} a = {}up(v);\n    {} b;\n    {}hp(b, a);\n    return a + b + {}gp;\n}}\n", t, t, t, q, t, q, q));
+    out
+}
+
+fn value_templates(rng: &mut Rng) -> String {
+    let k = *rng.pick(&KINDS);
+    let n = 1 + rng.below(4) as usize;
+    let t = vt(k, n);
+    let (c1, c2) = (1 + rng.below(5), 1 + rng.below(5));
+    let mut out = String::new();
+    out.push_str("template<int N> int tv(int a)\n{\n    return a * N + N;\n}\n");
+    out.push_str("template<typename T, int K> T tw(T a, T b)\n{\n    T r = a;\n    for (int i = 0; i < K; ++i)\n    {\n        r = r + b;\n    }\n    return r;\n}\n");
+    out.push_str(&format!("{} ft({} v, {} w, int i)\n{{\n", t, t, t));
+    out.push_str(&format!("    int j = tv<{}>(i) + tv<{}>(i);\n", c1, c2));
+    out.push_str(&format!("    {} r = tw<{}, {}>(v, w);\n", t, t, 1 + rng.below(3)));
+    if rng.chance(1, 2) {
+        out.push_str(&format!("    r = r + tw<{}, {}>(w, ({})j);\n", t, 1 + rng.below(3), t));
+    }
+    out.push_str(&format!("    return r + ({})j;\n}}\n", t));
+    out
+}
+
+fn nested_structs(rng: &mut Rng) -> String {
+    let k = *rng.pick(&KINDS);
+    let n = 2 + rng.below(3) as usize;
+    let t = vt(k, n);
+    let mut out = String::new();
+    out.push_str(&format!("struct SI\n{{\n    {} v;\n    {} s;\n    void set({} a, out {} old)\n    {{\n        old = v;\n        v = a;\n    }}\n    {} sum()\n    {{\n        return v + s;\n    }}\n}};\n", t, k, t, t, t));
+    out.push_str("struct SO\n{\n    SI one;\n    SI two[2];\n    bool flag;\n};\n");
+    out.push_str(&format!("static SO gs = {{ {{ {}, {} }}, {{ {{ {}, {} }}, {{ {}, {} }} }}, true }};\n", klit(rng, k), klit(rng, k), klit(rng, k), klit(rng, k), klit(rng, k), klit(rng, k)));
+    out.push_str(&format!("void hs(inout SO a, out SI b, SI c)\n{{\n    b = a.two[1];\n    a.two[0] = c;\n    a.one.v.{} = c.s;\n    a.flag = !a.flag;\n}}\n\n", COMP[rng.below(n as u64) as usize]));
+    out.push_str(&format!("{} fs(SO p, SI q, {} v, uint i)\n{{\n    SI r;\n    hs(p, r, q);\n    {} old;\n", t, t, t));
+    match rng.below(3) {
+        0 => out.push_str("    p.one.set(v, old);\n"),
+        1 => out.push_str("    p.two[i & 1u].set(r.v, old);\n"),
+        _ => out.push_str("    gs.two[1].set(q.sum(), old);\n    p = gs;\n"),
+    }
+    out.push_str("    SO copy = p;\n    copy.two[1] = copy.one;\n");
+    if rng.chance(1, 2) {
+        out.push_str("    gs = copy;\n");
+    }
+    out.push_str(&format!("    return old + copy.two[1].sum() + r.sum() + (p.flag ? v : ({})q.s) + gs.one.v;\n}}\n", t));
+    out
+}
